@@ -5,6 +5,7 @@ import (
 	"encoding/binary"
 	"errors"
 	"fmt"
+	"sync"
 	"sync/atomic"
 
 	ds "github.com/ipfs/go-datastore"
@@ -22,6 +23,10 @@ type pendingBase[T any] struct {
 	metaKey    string
 	fetch      func(ctx context.Context, store store.Store, height uint64) (T, error)
 	lastHeight atomic.Uint64
+	// setMu makes an update of lastHeight and the write of its stored copy one step for other writers: the data
+	// watermark is advanced by the submission loop and by block production (numWaitingData), and the stored
+	// copy must never fall behind a value another writer has already stored.
+	setMu sync.Mutex
 }
 
 // newPendingBase constructs a new pendingBase for a given type.
@@ -81,6 +86,8 @@ func (pb *pendingBase[T]) numPending() uint64 {
 }
 
 func (pb *pendingBase[T]) setLastSubmittedHeight(ctx context.Context, newLastSubmittedHeight uint64) {
+	pb.setMu.Lock()
+	defer pb.setMu.Unlock()
 	lsh := pb.lastHeight.Load()
 	if newLastSubmittedHeight > lsh && pb.lastHeight.CompareAndSwap(lsh, newLastSubmittedHeight) {
 		bz := make([]byte, 8)
